@@ -931,6 +931,12 @@ void subtotal_posts::operator()(post_t& post)
              _("'equity' cannot accept virtual and "
                "non-virtual postings to the same account"));
 
+    // One posting that need not balance makes the whole account one that
+    // need not: it is reported as `(Account)', and its total must not be
+    // offset by the balancing posting of the `equity' command.
+    if (! post.has_flags(POST_MUST_BALANCE))
+      (*i).second.must_balance = false;
+
     add_or_set_value((*i).second.value, amount);
   }
 
